@@ -235,10 +235,11 @@ fn gen_definition(r: &mut R) -> (Vec<Pat>, Vec<J>) {
         pats.push(Pat { name: format!("p{}", i + 1), text: text.to_string(), split, inline: false });
     }
     let nc = r.gen_range(1..5);
+    let text_only = r.gen_range(0..7) == 0;
     let mut cols = Vec::new();
     for _ in 0..nc {
         let named: Vec<usize> = (0..pats.len()).filter(|i| !pats[*i].inline).collect();
-        let k = r.gen_range(0..10);
+        let k = if text_only { r.gen_range(3..8) } else { r.gen_range(0..10) };
         let mut col = json!({"src": "one", "refs": [], "path": [], "ty": "text", "el": "", "nn": false, "trim": false, "conv": false, "micro": false, "def": {"t": "nodef"}});
         let ngroups = |p: &Pat| -> usize { if p.split { 4 } else { regex::Regex::new(&p.text).unwrap().captures_len() } };
         if k < 3 {
@@ -285,6 +286,8 @@ fn gen_definition(r: &mut R) -> (Vec<Pat>, Vec<J>) {
                 if r.gen_bool(0.8) { col["ty"] = json!("arr"); col["el"] = json!(pick(r, &["int", "text", "real", "bool"])); } else { col["ty"] = json!("ts"); }
             }
         }
+        // one definition in seven is "text only": every column a single TEXT group without modifiers (what a grep-like table looks like)
+        if text_only { if col["src"] == "one" { col["ty"] = json!("text"); cols.push(col); continue; } }
         // modifiers
         let ty = col["ty"].as_str().unwrap().to_string();
         if r.gen_bool(0.15) { col["nn"] = json!(true); }
@@ -397,6 +400,7 @@ pub fn trace(seed: u64, n: usize) -> Vec<J> {
             _ => { via = "api"; match definition_api(&pats, &cols) { Some(t) => tables.add_table(t), None => { eprintln!("definition rejected by the API: {:?}", sql); std::process::exit(2); } } }
         }
         let any_json = cols.iter().any(|c| c["src"] == "json");
+        let mut seen_lines: Vec<(String, bool)> = Vec::new();
         for _ in 0..r.gen_range(2..7) {
             let text = gen_line(&mut r, &cols);
             tick(&json!({"line": text, "def": sql}));
@@ -439,9 +443,29 @@ pub fn trace(seed: u64, n: usize) -> Vec<J> {
                 out["row"] = json!([]);
                 line = json!({"pats": {"zz": {"m": false, "gs": []}}, "doc": {"k": "nodoc"}});
             }
+            seen_lines.push((text.clone(), out["st"] == "row"));
             events.push(json!({"ev": "extract", "open": open, "cols": cols, "line": line, "out": out, "src": format!("{} via {} -- {:?}", sql.clone().unwrap_or_default(), via, text)}));
             if events.len() >= n { break; }
         }
+        // C06 as a law between two batch runs: the lines that gave no row above are invisible to every kind of statement -- the output over all the lines
+        // is the output over the row lines alone (a line that ends in a carriage return is left out: in a file that CR would belong to the line end)
+        if r.gen_bool(0.5) && seen_lines.iter().any(|(_, row)| !row) {
+            let keep: Vec<&(String, bool)> = seen_lines.iter().filter(|(t, _)| !t.ends_with('\r') && !t.contains('\n')).collect();
+            let dir = scratch();
+            let (fa, fr) = (dir.join("noise_all.log"), dir.join("noise_rows.log"));
+            std::fs::write(&fa, keep.iter().map(|(t, _)| format!("{}\n", t)).collect::<String>()).unwrap();
+            std::fs::write(&fr, keep.iter().filter(|(_, row)| *row).map(|(t, _)| format!("{}\n", t)).collect::<String>()).unwrap();
+            let none = json!({"at": "none", "n": 0});
+            for q in ["SELECT COUNT(*) AS n FROM x", "SELECT * FROM x", "SELECT COUNT(*) * 2 AS n FROM x", "SELECT DISTINCT c1 FROM x", "SELECT c1, COUNT(*) AS n FROM x GROUP BY c1",
+                      "SELECT * FROM x LIMIT 2", "SELECT COUNT(c1) AS n, COUNT(*) AS m FROM x", "SELECT COUNT(*) AS n FROM x WHERE c1 IS NULL OR c1 IS NOT NULL"] {
+                tick(&json!({"noise law": q, "def": sql}));
+                let a = crate::engine::run_batch(&tables, q, &[fa.clone()], &none, sqlgrep::executor::OutputFormat::Json);
+                let b = crate::engine::run_batch(&tables, q, &[fr.clone()], &none, sqlgrep::executor::OutputFormat::Json);
+                events.push(json!({"ev": "noiselaw", "q": q, "all": {"st": a.status, "out": a.raw}, "rows": {"st": b.status, "out": b.raw},
+                                   "src": format!("{} via {} -- {:?}", sql.clone().unwrap_or_default(), via, keep)}));
+            }
+        }
     }
+    cleanup_scratch();
     events
 }
